@@ -8,5 +8,5 @@ CONSTANTS
   MaxRegs = 2
   CapIncC = 1
   MaxSteps = 9
-INVARIANTS EmitSome Struct CacheOK Refines IssuedOnce PanicAgrees CacheSelects
+INVARIANTS EmitSome Struct Flags CacheOK Refines IssuedOnce PanicAgrees CacheSelects
 CHECK_DEADLOCK FALSE
